@@ -343,6 +343,9 @@ func Generate(profile string, seed uint64, tier string) (*Scenario, error) {
 	case "C05h":
 		sc.Property = "C05"
 		genC05h(g, sc, tier)
+	case "C13j":
+		sc.Property = "C13"
+		genC13j(g, sc, tier)
 	default:
 		return genOther(g, sc, profile, tier)
 	}
@@ -514,7 +517,7 @@ func Execute(sc *Scenario) *Verdict {
 		return RunC11Scenario(sc)
 	case "C15":
 		return RunC15Scenario(sc)
-	case "C08", "C10", "C17", "C18":
+	case "C08", "C10", "C17", "C18", "C13j":
 		return RunJobScenario(sc)
 	case "C05", "C02c", "C12c", "C13c", "C19c", "C07c":
 		return RunConcScenario(sc)
@@ -2352,4 +2355,42 @@ func genC11(g *G, sc *Scenario, tier string, seed uint64) {
 		sc.Tasks = append(sc.Tasks, drop)
 		sc.Knobs["preemptPct"] = int64(g.PickInt([]int{20, 40, 60}))
 	}
+}
+
+
+// genC13j: a trigger-started job whose transform asks the hub for the prefix of a namespace (GetNamespacePrefix or
+// AssertNamespacePrefix) - first while nobody has used that namespace, then again after a client (or the transform of
+// another run) has introduced it.
+func genC13j(g *G, sc *Scenario, tier string) {
+	sc.Datasets = []string{"srcA", "sink", "other"}
+	ns := g.Pick([]string{"http://later.example.org/ns/", "http://later.example.org/terms#", "https://later.example.org/a/b/"})
+	fn := g.Pick([]string{"GetNamespacePrefix", "GetNamespacePrefix", "AssertNamespacePrefix"})
+	code := "function transform_entities(entities) { var s = GetNamespacePrefix(\"" + ExS + "\"); var p = " + fn + "(\"" + ns + "\"); for (var i = 0; i < entities.length; i++) { SetProperty(entities[i], s, \"pfx\", \"\" + p); } return entities; }"
+	cfg := jobConfig("job1", map[string]any{"Type": "DatasetSource", "Name": "srcA"}, map[string]any{"Type": "DatasetSink", "Name": "sink"},
+		map[string]any{"Type": "JavascriptTransform", "Code": base64.StdEncoding.EncodeToString([]byte(code))}, "incremental", g.Range(1, 3))
+	// (an incremental run works with copies of the transform, a fullsync run with the transform object itself)
+	jt := g.Pick([]string{"incremental", "fullsync", "fullsync"})
+	cfg["paused"] = false
+	cfg["triggers"] = []any{map[string]any{"triggerType": "cron", "jobType": jt, "schedule": "@every 10m"}}
+	sc.Ops = append(sc.Ops, Op{K: "addJob", M: cfg})
+	mk := func(id string) Ent {
+		return Ent{"id": MkE + id, "props": map[string]any{MkS + "v": float64(g.Intn(100))}, "refs": map[string]any{}}
+	}
+	for r := g.Range(0, 2); r > 0; r-- {
+		sc.Ops = append(sc.Ops, Op{K: "batch", DS: "srcA", Ents: []Ent{mk(fmt.Sprintf("a%d", r))}}, Op{K: "triggerRun"})
+	}
+	if fn == "GetNamespacePrefix" || g.P(0.5) {
+		// a client introduces the namespace
+		sc.Ops = append(sc.Ops, Op{K: "batch", DS: "other", Ents: []Ent{{"id": ns + "thing", "props": map[string]any{ns + "key": "v"}, "refs": map[string]any{}}}})
+	} else {
+		// the transform itself introduced it (AssertNamespacePrefix) in an earlier run: make sure there was one
+		sc.Ops = append(sc.Ops, Op{K: "batch", DS: "srcA", Ents: []Ent{mk("seed")}}, Op{K: "triggerRun"})
+	}
+	var later []any
+	for r := g.Range(1, 2); r > 0; r-- {
+		id := fmt.Sprintf("z%d", r)
+		later = append(later, MkE+id)
+		sc.Ops = append(sc.Ops, Op{K: "batch", DS: "srcA", Ents: []Ent{mk(id)}})
+	}
+	sc.Ops = append(sc.Ops, Op{K: "triggerRun"}, Op{K: "checkPrefixAnswers", DS: "sink", S: ns, A: later})
 }
